@@ -733,7 +733,7 @@ theorem sound_strip (part : Bool) (ca : SOpt) (cks : List SzCk) (shape : Shape) 
   rw [strip_doc part ca cks shape top o n _ hsz hca hsh (filter_instOK _ fs hfs)]
   rw [shapeAccepts_filter part _ fs shape (by intro k hk; simpa using hk)]
   rw [filter_all _ _ (by intro k v hk; simp only [Bool.or_eq_true]; exact Or.inl hk) fs]
-  simp [ha.1]
+  simp [ha.1.1]
   simpa using ha.2
 
 theorem complete_strip (part : Bool) (ca : SOpt) (cks : List SzCk) (shape : Shape) (top o n : Bool) (x : Json)
@@ -751,10 +751,19 @@ theorem complete_strip (part : Bool) (ca : SOpt) (cks : List SzCk) (shape : Shap
     | none =>
       have : fs.all (fun k _ => shape.keys.contains k) = true := by
         have := hv.1.2; simpa [caJS, jsValid] using this
-      rw [filter_id _ fs this]; exact hv.2
+      rw [filter_id _ fs this]; exact ⟨by simp [catchAccepts], hv.2⟩
     | some c =>
       have : cks = [] := by simpa [SOpt.isSome] using hcs
-      subst this; simp [szOk]
+      subst this
+      refine ⟨?_, by simp [szOk]⟩
+      have h2 := hv.1.2
+      simp only [caJS] at h2
+      simp only [catchAccepts]
+      have hcg : fs.all (fun k v => shape.keys.contains k || jsValid (toJS false false false c) v)
+          = fs.all (fun k v => shape.keys.contains k || accepts c v) :=
+        all_congr_fields _ _ (fun k v _ hv' => by
+          rw [eqv c false false false v (by simpa [reprCa] using hca) hv']) fs hfs
+      rw [← hcg]; exact h2
   | _ => simp [toJS, jsValid_node, kwValid, typeOk] at hv
 
 /-! ## the property -/
